@@ -118,6 +118,9 @@ pub struct Slot {
     pub newest_handed: u64,
     /// a fresh session datagram of this client sits unread in the server's socket
     pub fresh_waiting: bool,
+    /// server clock of the last update that certainly read an authentic datagram of this session (the response that was
+    /// accepted, a fresh session datagram): a lower bound of the server's receive timer for it
+    pub server_heard_ms: Option<u64>,
     /// client clock when a datagram carrying the server's address as source was last handed to this client's socket
     pub last_from_server_ms: u64,
 }
@@ -226,6 +229,7 @@ impl WorldC {
                 emitted_n: 0,
                 newest_handed: 0,
                 fresh_waiting: false,
+                server_heard_ms: None,
                 last_from_server_ms: 0,
             })
             .collect();
@@ -318,6 +322,7 @@ impl WorldC {
         s.emitted_n = 0;
         s.newest_handed = 0;
         s.fresh_waiting = false;
+        s.server_heard_ms = None;
         s.last_from_server_ms = s.clock_ms;
     }
 
